@@ -129,6 +129,36 @@ let do_render strict ctx cbeg cend cols =
   | Ok off -> pr "%s\n" (show_ints (List.map int_of_z off))
   | e -> pr "%s\n" (err_name e)
 
+(* ---- third part: insert-mode helper buffers (CapDefs3.v) ---- *)
+let do_help mode hex =
+  match vi_help_tag_gen mode (bytes_of_hex hex) with
+  | Ok None -> pr "none\n"
+  | Ok (Some t) -> pr "tag %s\n" (hex_of_bytes t)
+  | e -> pr "%s\n" (err_name e)
+
+(* ai <k> ops: t = ^T, d = ^D, l<sp>:<pref empty 0/1>:<xai 0/1> = a finished line; answers strlen(ai) after the
+   initial fill and after every operation *)
+let do_ai k ops =
+  match ai_init (z_of_int k) with
+  | Ok n ->
+    pr "%d" (int_of_z n);
+    let len = ref n in
+    let dead = ref false in
+    List.iter (fun o ->
+      if not !dead then begin
+        let op = match o.[0] with
+          | 't' -> AiTab
+          | 'd' -> AiDel
+          | _ -> (match String.split_on_char ':' (String.sub o 1 (String.length o - 1)) with
+                  | [sp; pe; xa] -> AiLine (z_of_int (int_of_string sp), pe <> "0", xa <> "0")
+                  | _ -> AiDel) in
+        match ai_step !len op with
+        | Ok l -> len := l; pr " %d" (int_of_z l)
+        | e -> pr " %s" (err_name e); dead := true
+      end) ops;
+    pr "\n"
+  | e -> pr "%s\n" (err_name e)
+
 let () =
   iter_lines (fun l ->
     match words l with
@@ -150,4 +180,8 @@ let () =
     | "vibuf" :: ops -> do_vibuf ops
     | "rendermodel" :: strict :: ctx :: cbeg :: cend :: cols ->
       do_render (strict <> "0") (int_of_string ctx) (int_of_string cbeg) (int_of_string cend) cols
+    | ["help"; h] -> do_help CutBytes h
+    | ["help-nocut"; h] -> do_help CutNone h
+    | ["help-chars"; h] -> do_help CutChars h
+    | "ai" :: k :: ops -> do_ai (int_of_string k) ops
     | _ -> pr "?\n")
